@@ -154,6 +154,9 @@ pub enum Op {
     /// session.set_text(text); calc.execute_session(&session)
     SessionText { text: TextSpec },
     Admin(AdminOp),
+    /// evaluate a probe set on the long-lived calculator and on freshly built
+    /// reference calculators (check-specific meaning)
+    Checkpoint { probes: Vec<(String, String)> },
 }
 
 #[derive(Debug, Clone, PartialEq, Serialize, Deserialize)]
@@ -191,6 +194,7 @@ impl Trace {
                 Op::Execute { .. } => "x",
                 Op::SessionNew { .. } => "n",
                 Op::SessionText { .. } => "t",
+                Op::Checkpoint { .. } => "c",
                 Op::Admin(a) => a.kind(),
             }));
         }
